@@ -70,3 +70,24 @@ Proof.
   destruct (hdr_encodable AT5 (header_for (type_of5 m) pid n)); [|discriminate]. intros H. injection H as <- <-.
   exists p. split; [reflexivity|]. split; [|reflexivity]. unfold header_for. cbn [h_len]. now rewrite Nat2N.id.
 Qed.
+
+(* addressing and check value of everything send() writes *)
+Lemma send4_addressing m pid h f : send4 m pid = Some (h, f) ->
+  h_to h = (if type_of m =? 0x1F then 0x90 else 0x80) /\ h_from h = 0xB0 /\ h_pid h = pid /\ h_type h = type_of m /\
+  exists p, enc4 m = Some p /\ f = enc_hdr AT4 h ++ p ++ check_bytes (cov h ++ p) /\
+            validate (cov h ++ p) (check_bytes (cov h ++ p)) = true.
+Proof.
+  unfold send4. destruct (size4 m) as [n|]; [|discriminate]. destruct (enc4 m) as [p|]; [|discriminate]. cbn [obind].
+  destruct (hdr_encodable AT4 (header_for (type_of m) pid n)); [|discriminate]. intros H. injection H as <- <-.
+  repeat (split; [reflexivity|]). exists p. split; [reflexivity|]. split; [reflexivity|]. apply validate_self.
+Qed.
+
+Lemma send5_addressing m pid h f : send5 m pid = Some (h, f) ->
+  h_to h = (if type_of5 m =? 0x1F then 0x90 else 0x80) /\ h_from h = 0xB0 /\ h_pid h = pid /\ h_type h = type_of5 m /\
+  exists p, enc5 m = Some p /\ f = enc_hdr AT5 h ++ p ++ check_bytes (cov h ++ p) /\
+            validate (cov h ++ p) (check_bytes (cov h ++ p)) = true.
+Proof.
+  unfold send5. destruct (size5 m) as [n|]; [|discriminate]. destruct (enc5 m) as [p|]; [|discriminate]. cbn [obind].
+  destruct (hdr_encodable AT5 (header_for (type_of5 m) pid n)); [|discriminate]. intros H. injection H as <- <-.
+  repeat (split; [reflexivity|]). exists p. split; [reflexivity|]. split; [reflexivity|]. apply validate_self.
+Qed.
